@@ -29,6 +29,21 @@ TABLE = {
              "weak fairness; all interleavings at atomic-operation grain, each replayed on real threads.",
         note="bounds: <=3 waiters + <=2 resolvers; notify_all after the flag store is assumed to touch the waiter's node by address only",
         design_ref="6/C02, 3.1, 4.2"),
+    "C03": dict(
+        claimed=True,
+        text="View-based weak-memory TLA+ model (spec/WMM/WMM.tla: timestamps + per-thread views, stale reads explored, release "
+             "sequences through RMWs, fences, seq_cst view, happens-before race detection for plain locations) instantiated for the "
+             "future/promise/awaiter publication protocol, the mutex (try-lock, subscribe-found-free, hand-over, blocking contender), "
+             "reusable_storage_mtsafe and the generator's blocking flag. The memory order of every atomic site is a CONSTANT that the "
+             "check extracts from the running code (instrumented atomics log call site + order arguments while Future/Mutex schedules are "
+             "replayed and a probe drives storage/generator), so a changed order changes the model; TLC decides DataRaceFree and "
+             "PublishesSafely over all executions of the model; an unexecuted site fails the check as unbound.",
+        note="RA+relaxed view model without load-buffering/out-of-thin-air, <=7 messages per location, 2 threads per scenario; plain accesses "
+             "placed as transcribed in the scenario programs; the control skeleton is bound by the C01/C02/C07 replays run inside this check; "
+             "lock-based components (queue, pool, scheduler, publisher) are NOT decided here (std::mutex discipline only shows up as a "
+             "replay divergence in their own threaded replays where those exist)",
+        design_ref="6/C03, 3.2, 4.5, 9.1, 9.8",
+        technique="explicit TLA+ weak-memory model checked by TLC, memory orders extracted from the executing code (conformance binding by schedule replay)"),
     "C07": dict(
         claimed=True,
         text="TLC checks spec/Mutex/Mutex.tla at the finest replayable grain (every atomic operation on the request stack AND every "
